@@ -245,7 +245,7 @@ def run_check(harness_name, tier, seed=0, jobs=None, only=None):
             "solver_time_s": round(solver_time, 2),
             "solver_versions": {"z3": z3.get_version_string()},
             "functions_encoded": source_hashes(getattr(h, "FUNCTIONS", [])),
-            "bounds": getattr(h, "BOUNDS", {}).get(tier, ""),
+            "bounds": getattr(h, "BOUNDS", {}).get(tier, "") + ((" || " + h.BOUNDS["merged"]) if "merged" in getattr(h, "BOUNDS", {}) else ""),
             "outside_bounds": getattr(h, "OUTSIDE", []),
             "stubs": getattr(h, "STUBS", []),
             "cases": case_rows if len(case_rows) <= 400 else case_rows[:400],
